@@ -352,6 +352,20 @@ def exhaustive():
         d.append(['other', [['O', 'o']]])
         cases.append({'platform': plat, 'envs': {'default': d, 'p': p}, 'sysv': SYSV0, 'launch': LAUNCH0,
                       'name': spell('foo', how), 'interp': interp})
+    # names without any cased character (lower() == upper() == the name itself: "3.11", "11_8", "_"): already in the
+    # form from_dict files them under, every spelling question collapses - what is left is where they are declared
+    for base_name, plat, where, dfl, interp, envdef in itertools.product(
+            UNCASED[:3], ('default', 'p'), ('neither', 'default', 'p', 'both'), ('no', 'default', 'p'), (False, True), (False, True)):
+        d, p = [], []
+        if envdef:
+            d.append(['environment', env_d])
+        if where in ('default', 'both'):
+            d.append([base_name, foo_d + ([['DEFAULTS', 'PATH:HOME:NOPE']] if dfl == 'default' else [])])
+        if where in ('p', 'both'):
+            p.append([base_name, foo_p + ([['DEFAULTS', 'LV:PATH:A']] if dfl == 'p' else [])])
+        d.append(['other', [['O', 'o']]])
+        cases.append({'platform': plat, 'envs': {'default': d, 'p': p}, 'sysv': SYSV0, 'launch': LAUNCH0,
+                      'name': base_name, 'interp': interp})
     return cases
 
 
@@ -362,6 +376,11 @@ LNAMES = ['PATH', 'HOME', 'LV', 'LW', 'PYTHONPATH', 'LD_LIBRARY_PATH', 'PYTHONHO
 SNAMES = ['INSTANCE_DIR', 'FLOW_EXPERIMENT_NAME', 'FLOW_RUN_ID']
 LITS = ['x', '/opt/bin', ':', 'v-1', '.', '/', 'a b', '=']
 ENAMES = ['foo', 'bar', 'gnu-env', 'environment', 'e1']
+# legal names without any cased character (an environment named after a toolchain version ...): str.lower(), upper(),
+# islower(), isupper() disagree about them in every possible way, and they are their own lower-case form
+UNCASED = ['3.11', '11_8', '_', '42', '-', '2024.1-0', '.']
+# names whose cased characters are few / at the end (a digit or a sign in first position)
+DIGIT_LED = ['3.11a', '1x', '_b', '9-Z']
 # outside the common $NAME / ${NAME} fragment of string.Template and os.path.expandvars
 ODD = ['$$', '$', '${', '}', '{', '${}', '${A-B}', '$1X', '${1X}', '$$A', '${A', '$A}', '${ A}', '$-', '$$$', '${A}${', '$LVx', '${LV}x',
        '$A$B', '$ A', '${A$B}', '$_', '$__u']
@@ -418,7 +437,10 @@ def gen_case(rng):
     collide = rng.random() < 0.06
     for plat in ('default', 'p'):
         tab = []
-        for n in rng.sample(ENAMES, rng.randint(0, 4)):
+        pool = list(ENAMES)
+        if rng.random() < 0.3:      # a document that names environments after versions
+            pool += rng.sample(UNCASED, 2) + rng.sample(DIGIT_LED, 1)
+        for n in rng.sample(pool, rng.randint(0, 4)):
             tab.append([spell(n, rng.choice(['lower', 'lower', 'upper', 'mixed'])), gen_env(rng, refs, lk)])
         if collide and tab:
             n = rng.choice(tab)[0]
@@ -433,7 +455,7 @@ def gen_case(rng):
         name = rng.choice(['none', 'NONE', 'nOne'])
     else:
         declared = [t[0] for plat in ('default', 'p') for t in tabs[plat]]
-        pool = declared if (declared and rng.random() < 0.85) else ENAMES[:3] + ['e1', 'missing']
+        pool = declared if (declared and rng.random() < 0.85) else ENAMES[:3] + ['e1', 'missing', '3.11', '0']
         name = spell(rng.choice(pool).lower(), rng.choice(['lower', 'lower', 'upper', 'mixed']))
     return {'platform': rng.choice(['default', 'p', 'p']), 'envs': tabs, 'sysv': sysv, 'launch': launch, 'name': name,
             'interp': rng.random() < 0.35}
@@ -496,7 +518,7 @@ def explore(ctx, cases, twins=()):
         terms.append((cterm(c, r), c, r))
         for plat in ('default', 'p'):
             key = json.dumps([[n, [k for k, _ in kvs]] for n, kvs in c['envs'][plat]])
-            if key not in low_seen and len(low_seen) < LOWER_CAP and any(n != n.lower() for n, _ in c['envs'][plat]):
+            if key not in low_seen and len(low_seen) < LOWER_CAP and any(n != n.lower() or not n.islower() for n, _ in c['envs'][plat]):
                 low_seen.add(key)
                 low_terms.append(('(%s, %s)' % (ctab(c['envs'][plat]),
                                                 clist(r['held'][plat], lambda ne: '(%s, %s)' % (cstr(ne[0]), clist(ne[1], cstr)))),
@@ -537,6 +559,15 @@ CORPUS = [
     # spelling collision inside one platform
     {'platform': 'p', 'envs': {'default': [['foo', [['A', '1']]], ['FOO', [['B', '2']]]], 'p': [['Foo', [['C', '3']]], ['foo', [['D', '4']]]]},
      'sysv': SYSV0, 'launch': LAUNCH0, 'name': 'foo', 'interp': False},
+    # environment names without any cased character: declared on both platforms (layering), on the selected one only
+    # next to a cased spelling pair, on platform default only
+    {'platform': 'p', 'envs': {'default': [['3.11', [['PYVER', '3.11'], ['PREFIX', '/opt/python'], ['BIN', '$PREFIX/bin']]]],
+                               'p': [['3.11', [['PREFIX', '/gpfs/python']]]]},
+     'sysv': SYSV0, 'launch': LAUNCH0, 'name': '3.11', 'interp': True},
+    {'platform': 'p', 'envs': {'default': [['Cuda', [['V', 'any']]]], 'p': [['11_8', [['CUDA', '11.8'], ['DEFAULTS', 'LV']]], ['CUDA', [['V', 'p']]]]},
+     'sysv': SYSV0, 'launch': LAUNCH0, 'name': '11_8', 'interp': False},
+    {'platform': 'default', 'envs': {'default': [['_', [['U', 'u-$HOME']]], ['42', [['N', 42]]]], 'p': []},
+     'sysv': SYSV0, 'launch': LAUNCH0, 'name': '_', 'interp': False},
 ]
 
 
@@ -548,8 +579,10 @@ def run(ctx):
     ctx.rule = ('exhaustive product: platform {default,p} x 8 spellings of the no-selection/none names x default environment '
                 'declared on neither/default/p/both x DEFAULTS x interpreter, and platform x requested spelling '
                 '{lower,upper,mixed} x declared on neither/default/p/both x declared spelling x DEFAULTS on no/default/p layer x '
-                'interpreter x default environment declared; plus random documents (0-4 environments per platform, random '
-                'spellings incl. collisions, values with $N/${N} references to environment, launch, system and undefined '
+                'interpreter x default environment declared, and name without any cased character {3.11, 11_8, _} x platform '
+                'x declared on neither/default/p/both x DEFAULTS layer x interpreter x default environment declared (288); '
+                'plus random documents (0-4 environments per platform, random '
+                'spellings incl. collisions, 30% of the documents with names without cased characters / digit-led names, values with $N/${N} references to environment, launch, system and undefined '
                 'variables, "$$", lone "$", unterminated and non-identifier references, YAML null/int/bool scalars, DEFAULTS lists) '
                 'under random launch environments; for 300 (thorough 3000) of them a twin differing in one unreferenced launch '
                 'variable; the two substitution functions alone on every text of length <= 4 (thorough 5) over "$ { } A 1 space" '
